@@ -295,13 +295,18 @@ def _worker(modname, tier, sub_index, shard, base_seed):
             if os.environ.get("VERIF_SCALE"):          # tools/mutants.py: cheaper runs for the mutation sweep
                 n = max(1, int(n * float(os.environ["VERIF_SCALE"])))
 
+            skipped = [not sub.skip_first]
+
             @hypothesis.seed(seed)
-            @settings(max_examples=n, database=None, deadline=None, derandomize=False,
+            @settings(max_examples=n + (1 if sub.skip_first else 0), database=None, deadline=None, derandomize=False,
                       report_multiple_bugs=False, print_blob=False,
                       phases=[Phase.generate, Phase.shrink],
                       suppress_health_check=list(HealthCheck))
             @given(sub.strategy())
             def test(case):
+                if not skipped[0]:
+                    skipped[0] = True
+                    return
                 st.run_case(case)
 
             try:
